@@ -272,7 +272,8 @@ pub struct DownDesc {
     pub adr: bool,
     pub nwk: [u8; 16],
     pub app: [u8; 16],
-    /// build with an uplink MHDR instead (the device's parser accepts those as well)
+    /// build with an uplink MHDR instead (Dir = 0 in MIC and keystream): the parser accepts those as
+    /// data frames, an end-device must ignore them — the reference view of such a frame is `g`
     pub uplink_type: bool,
 }
 
@@ -440,6 +441,10 @@ pub fn view_of(bytes: &[u8], nwk: &[u8; 16], app: &[u8; 16], root: &[u8; 16], mi
 pub fn view_of_impl(bytes: &[u8], nwk: &[u8; 16], app: &[u8; 16], root: &[u8; 16], mic_hint: Option<u32>) -> String {
     let mut copy = bytes.to_vec();
     if let Ok(enc) = EncryptedDataPayload::parse(&mut copy[..]) {
+        if enc.is_uplink() {
+            // an uplink-typed frame is not a frame for an end-device
+            return "g".into();
+        }
         let nwk_c = DefaultCrypto::new(&AES128(*nwk));
         let app_c = DefaultCrypto::new(&AES128(*app));
         let len = bytes.len();
